@@ -242,3 +242,58 @@ def pretty(p):
                                                               PERMUTE, TRANSPOSE) and i == 0
                               else (pretty(x) if p[0] in (THEN, TENSOR) and i == 1 else x)
                               for i, x in enumerate(p[1:])]
+
+
+# ---------------------------------------------------------------- formal sums
+SOF, SADD, STHEN, STENSOR, SDAGGER = range(5)
+
+
+def interp_sum(c, sp):
+    op = sp[0]
+    if op == SOF:
+        terms = [interp(c, p) for p in sp[1]]
+        dom = c.ty(sp[2][0]) if sp[2] else None
+        cod = c.ty(sp[3][0]) if sp[3] else None
+        return monoidal.Sum(terms, dom, cod)
+    if op == SADD:
+        a = interp_sum(c, sp[1])
+        b = interp_sum(c, sp[2])
+        return a + b
+    if op == STHEN:
+        a = interp_sum(c, sp[1])
+        b = interp_sum(c, sp[2])
+        return a >> b
+    if op == STENSOR:
+        a = interp_sum(c, sp[1])
+        b = interp_sum(c, sp[2])
+        return a @ b
+    if op == SDAGGER:
+        return interp_sum(c, sp[1])[::-1]
+    raise AssertionError("bad sum opcode %r" % (op,))
+
+
+def canon_sum(s):
+    if not isinstance(s, cat.Sum):
+        raise AssertionError("expected a Sum, got %r" % (s,))
+    return [[canon_diagram(t) for t in s.terms], canon_ty(s.dom), canon_ty(s.cod)]
+
+
+def interp2(c, tagged):
+    return interp(c, tagged[1]) if tagged[0] == 0 else interp_sum(c, tagged[1])
+
+
+def observe2(c, tagged, seconds=10.0):
+    """Outcome of a tagged program ([0, diagram program] | [1, sum program])."""
+    if tagged[0] == 0:
+        return observe(c, tagged[1], seconds)
+    try:
+        v = with_timeout(seconds, interp_sum, c, tagged[1])
+    except CaseTimeout:
+        return [1, 101]
+    except monoidal.VerifHookError:
+        return [1, 102]
+    except AssertionError:
+        raise
+    except Exception as exc:   # noqa
+        return [1, err_code(exc)]
+    return [0, [2, canon_sum(v)]]
